@@ -344,6 +344,20 @@ def run(ctx):
         if tgt == raw:
             a = wm.expr_of_operand(c['term']['args'][1])
             writes.append((c, a))
+    # `buf.push_str(PIECE); buf.push('\n');` is `writeln!(buf, "{}", PIECE)`: the piece, terminated when the next thing done to the
+    # buffer (in the same straight line) is the push of a newline
+    pushes_nl = [c for c in wm.calls(lambda r: r['path'] and r['path'].endswith('String::push')) if strip(wm.expr_of_operand(c['term']['args'][0])) == raw and
+                 strip(wm.expr_of_operand(c['term']['args'][1]))[:2] == ('int', 10)]
+    for c in wm.calls(lambda r: r['path'] and r['path'].endswith('String::push_str')):
+        if strip(wm.expr_of_operand(c['term']['args'][0])) != raw:
+            continue
+        piece = strip(expand(wm, wm.expr_of_operand(c['term']['args'][1])))
+        term = any(wm.dominates(c['block'], n_['block']) and n_['block'] in wm.reach(c['block']) and not any(
+            o_['block'] not in (c['block'], n_['block']) and wm.dominates(c['block'], o_['block']) and wm.dominates(o_['block'], n_['block'])
+            for o_ in [w_ for w_, _ in writes] + [x_ for x_ in wm.calls(lambda r: r['path'] and re.search(r'String::(push_str|push)$', r['path']))]) for n_ in pushes_nl)
+        if piece[0] == 'str':
+            piece = ('str', piece[1] + ('\n' if term else ''))
+        writes.append((c, piece))
 
     def deep_fields(e, d=0):
         out = set()
